@@ -128,6 +128,11 @@ def gen(seed, run, sub="clean", tier="quick"):
         ops.append(["write", i])
     ops.append(["disconnect", True])
     via = "delegate" if r.random() < 0.5 else "bare"
+    sched = common.gen_sched(r, "%s/%s/c16" % (seed, run), est_steps=300 + 250 * n)
+    if half is not None and r.random() < 0.4:
+        # reconnect sessions: threads that make no progress for seconds around disconnect()/connect()
+        sched = {"seed": "%s/%s/c16" % (seed, run), "policy": "hot", "p": 0.01, "p_hot": 0.3, "pp": 0.3,
+                 "p_stall": 0.3, "stall_max": 2.5}
     return {
         "lane": "c16", "sub": sub, "transport": transport, "via": via, "cfg": cfg,
         "stmts": stmts, "replies": replies, "faults": faults, "ops": ops, "draws": draws,
@@ -136,7 +141,7 @@ def gen(seed, run, sub="clean", tier="quick"):
                           "192.168.1.250"]),
         "tcp_port": r.choice([8080, 8080, 23, 1, 65535]),
         "eol": r.choice(["\n", "\r\n", ""]), "max_steps": 60000,
-        "sched": common.gen_sched(r, "%s/%s/c16" % (seed, run), est_steps=300 + 250 * n),
+        "sched": sched,
     }
 
 
